@@ -87,7 +87,7 @@ def run_case(spec):
     d = int(rng.integers(2, 9))
     if kind in ('NeuralBound', 'NautilusBound'):
         d = min(d, 6)
-    obs = dict(non_default_activations=0, pool_bounds=0, members_max=0, bounds_with_more_than_10_members=0, lockstep_calls=0, contains_probes=0, sample_points_compared=0, roundtrips=0, update_roundtrips=0,
+    obs = dict(rng_none_reads=0, non_default_activations=0, pool_bounds=0, members_max=0, bounds_with_more_than_10_members=0, lockstep_calls=0, contains_probes=0, sample_points_compared=0, roundtrips=0, update_roundtrips=0,
                cache_nonempty_at_write=0, refills_forced=0, history_ops=0)
     viols = []
     history = []
@@ -228,6 +228,17 @@ def run_case(spec):
                         return False
             return mixed
 
+        def progress(o):
+            out = [(type(o).__name__, getattr(o, 'n_sample', None), getattr(o, 'n_reject', None),
+                    len(o.points) if isinstance(getattr(o, 'points', None), np.ndarray) else None)]
+            for name in ('outer_bound', 'cube', 'ellipsoid'):
+                if getattr(o, name, None) is not None:
+                    out += progress(getattr(o, name))
+            for name in ('bounds', 'neural_bounds'):
+                for sub in getattr(o, name, None) or ():
+                    out += progress(sub)
+            return out
+
         def read_back(group, tag):
             try:
                 return type(b).read(group, rng=boundgen.clone_rng(brng))
@@ -247,6 +258,28 @@ def run_case(spec):
         with h5py.File(path, 'r') as f:
             r1 = read_back(f['b'], 'write/read')
         obs['roundtrips'] += 1
+        # read(group, rng=None) is as valid a call as read(group, rng=g): membership, the reported volume and the saved
+        # sampling progress (counters and cached rows of every part) do not depend on which generator the copy holds
+        try:
+            with h5py.File(path, 'r') as f:
+                r0 = type(b).read(f['b'], rng=None)
+        except Exception as e:
+            tbl = traceback.extract_tb(e.__traceback__)[-1]
+            bad('roundtrip.raise.%s.read-rng-none.%s' % (kind, type(e).__name__),
+                'read(rng=None) raised %r at %s:%s' % (e, tbl.filename.split('/')[-1], tbl.name))
+            r0 = None
+        if r0 is not None and r1 is not None:
+            obs['rng_none_reads'] += 1
+            if not np.array_equal(b.contains(probes), r0.contains(probes)):
+                bad('roundtrip.contains-differs.rng-none.' + kind, 'read(rng=None): contains() differs')
+            if progress(b) != progress(r0):
+                bad('roundtrip.progress-differs.rng-none.' + kind,
+                    'read(rng=None): saved sampling progress differs: written %r, read %r'
+                    % (progress(b)[:4], progress(r0)[:4]))
+            elif hasattr(b, 'log_v') and all(n is None or n > 0 for _, n, _, _ in progress(b)) and not (
+                    b.log_v == r0.log_v):      # (log_v draws a batch when nothing was sampled yet: not comparable)
+                bad('roundtrip.log_v-differs.rng-none.' + kind,
+                    'read(rng=None): log_v %r != %r' % (float(b.log_v), float(r0.log_v)))
         mixed = False
         ok = r1 is not None
         if ok:
@@ -265,6 +298,18 @@ def run_case(spec):
             with h5py.File(path, 'r') as f:
                 r2 = read_back(f['b'], 'update/read')
             obs['update_roundtrips'] += 1
+            try:
+                with h5py.File(path, 'r') as f:
+                    r3 = type(b).read(f['b'], rng=None)
+                if progress(b) != progress(r3):
+                    bad('roundtrip.progress-differs.rng-none.' + kind,
+                        'update/read(rng=None): saved sampling progress differs: written %r, read %r'
+                        % (progress(b)[:4], progress(r3)[:4]))
+                obs['rng_none_reads'] += 1
+            except Exception as e:
+                if not env.from_code_under_test(e):
+                    raise
+                bad('roundtrip.raise.%s.read-rng-none.%s' % (kind, type(e).__name__), 'update/read(rng=None) raised %r' % e)
             if r2 is not None:
                 lockstep(b, r2, 'update/read')
     except RuntimeError as e:
